@@ -5,11 +5,15 @@
 //!   new players=<n> window=<w> sparse=<0|1> pred=<repeat|default> delay=<d> kinds=<L|R<ep>,..> spectators=<k>
 //!   sync | local <h> <v> | advance | poll | rin <ep> <frame> <v>.. | gossip <ep> <d:l,..> | epdisc <ep>
 //!   delay <h> <d> | disc <h>
+//! with `desync=<interval>` on the `new` line (level `desync`): every save carries the checksum
+//! frame*1000 + (number of saves of that frame so far); `report <ep> <frame> <cs|match>` lets a puppet send
+//! a ChecksumReport (`match` = the checksum of the latest save of that frame); `advance` appends
+//! ` | ds pre=L:<l>;cells:<f:c,..> rep=<f:c|-> ev=<ep/f/local/remote;..|-> sent=<f> hist=<f:c,..|-> pend=<..|..>`
 use crate::sim::game::{status_code, GState, Inp};
 use crate::sim::{CfgDefault, CfgRepeat};
 use crate::util::guarded;
 use ggrs::verif::msg::{build, view, Body, MsgView};
-use ggrs::{Config, GgrsError, GgrsRequest, Message, NonBlockingSocket, P2PSession, PlayerType, SessionBuilder, SessionState};
+use ggrs::{Config, DesyncDetection, GgrsError, GgrsEvent, GgrsRequest, Message, NonBlockingSocket, P2PSession, PlayerType, SessionBuilder, SessionState};
 use std::cell::RefCell;
 use std::collections::HashMap;
 use std::io::{BufRead, Write};
@@ -51,6 +55,13 @@ struct World<C: Config<Input = Inp, State = GState, Address = Addr>> {
     nremote: usize,
     players: usize,
     dead: bool,
+    /// desync mode: interval (0 = off), saves per frame, checksum reports seen in the outbox
+    desync: u32,
+    saves: HashMap<i32, u64>,
+    reports_out: Vec<(usize, i32, u128)>,
+    /// the game's input history (values only), executed from the requests: the checksum of a save is a
+    /// hash of the history up to the saved frame, so equal states give equal checksums
+    ghist: Vec<Vec<u32>>,
 }
 
 fn le(v: u32) -> Vec<u8> {
@@ -72,6 +83,7 @@ impl<C: Config<Input = Inp, State = GState, Address = Addr>> World<C> {
                     self.wire.borrow_mut().inbox.push((to, reply));
                 }
                 Body::Input { start_frame, bytes, .. } => news.push((pi, start_frame, bytes)),
+                Body::ChecksumReport { checksum, frame } => self.reports_out.push((pi, frame, checksum)),
                 _ => {}
             }
         }
@@ -145,6 +157,7 @@ fn run_world<C: Config<Input = Inp, State = GState, Address = Addr>>(
     let mut delay = 0;
     let mut kinds: Vec<String> = Vec::new();
     let mut nspec = 0usize;
+    let mut desync = 0u32;
     for t in &first[1..] {
         let (k, v) = t.split_once('=').unwrap_or((t, ""));
         match k {
@@ -154,6 +167,7 @@ fn run_world<C: Config<Input = Inp, State = GState, Address = Addr>>(
             "delay" => delay = v.parse().unwrap(),
             "kinds" => kinds = v.split(',').map(str::to_string).collect(),
             "spectators" => nspec = v.parse().unwrap(),
+            "desync" => desync = v.parse().unwrap(),
             _ => {}
         }
     }
@@ -165,7 +179,8 @@ fn run_world<C: Config<Input = Inp, State = GState, Address = Addr>>(
         .with_input_delay(delay)
         .with_sparse_saving_mode(sparse)
         .with_disconnect_timeout(std::time::Duration::from_millis(1_000_000))
-        .with_disconnect_notify_delay(std::time::Duration::from_millis(900_000));
+        .with_disconnect_notify_delay(std::time::Duration::from_millis(900_000))
+        .with_desync_detection_mode(if desync > 0 { DesyncDetection::On { interval: desync } } else { DesyncDetection::Off });
     let mut eps: HashMap<usize, Vec<usize>> = HashMap::new();
     for (h, k) in kinds.iter().enumerate() {
         if k == "L" {
@@ -193,7 +208,7 @@ fn run_world<C: Config<Input = Inp, State = GState, Address = Addr>>(
         ZERO.with(|z| z.borrow_mut().insert(200 + k as u32, 4 * players));
         puppets.push(Puppet { addr: 200 + k as u32, handles: vec![], last_sent: -1, last_bytes: Vec::new(), status: vec![(false, -1); players], max_seen: -1, acked: -1 });
     }
-    let mut w = World { sess, wire, puppets, nremote, players, dead: false };
+    let mut w = World { sess, wire, puppets, nremote, players, dead: false, desync, saves: HashMap::new(), reports_out: Vec::new(), ghist: Vec::new() };
     writeln!(out, "ok").unwrap();
     for line in lines {
         let t: Vec<&str> = line.split_whitespace().collect();
@@ -226,7 +241,28 @@ fn run_world<C: Config<Input = Inp, State = GState, Address = Addr>>(
                 let (rs, ss) = fmt_sends(&news, w.nremote);
                 format!("ok rs=[{}] ss=[{}] cur={} st={}", rs, ss, w.sess.current_frame(), fmt_status(&w.sess.verif_connect_status()))
             }
+            "report" => {
+                let ep: usize = t[1].parse().unwrap();
+                // `conf<k>`: the frame k below the session's last confirmed frame (what an honest peer,
+                // which has confirmed at least as much, could report)
+                let frame: i32 = match t[2].strip_prefix("conf") {
+                    Some(k) => (w.sess.verif_desync().last_confirmed - k.parse::<i32>().unwrap()).max(0),
+                    None => t[2].parse().unwrap(),
+                };
+                let saved = w.saves.get(&frame).map(|k| u128::from(*k));
+                if t[3] == "match" && saved.is_none() {
+                    "skip".to_string()
+                } else {
+                    let cs: u128 = if t[3] == "match" { saved.unwrap() } else { t[3].parse().unwrap() };
+                    let m = build(&MsgView { magic: MAGIC, body: Body::ChecksumReport { checksum: cs, frame } });
+                    let addr = w.puppets[ep].addr;
+                    w.wire.borrow_mut().inbox.push((addr, m));
+                    format!("ok f={frame} cs={cs}")
+                }
+            }
             "advance" => {
+                let pre = if w.desync > 0 { Some(w.sess.verif_desync()) } else { None };
+                w.reports_out.clear();
                 let r = w.sess.advance_frame();
                 let news = w.react();
                 let (rs, ss) = fmt_sends(&news, w.nremote);
@@ -239,17 +275,50 @@ fn run_world<C: Config<Input = Inp, State = GState, Address = Addr>>(
                         for r in reqs {
                             match r {
                                 GgrsRequest::SaveGameState { cell, frame } => {
-                                    cell.save(frame, Some(GState { frame, hash: 0 }), Some(0));
+                                    let mut h = 0x9e37u64;
+                                    for fi in w.ghist.iter().take(frame.max(0) as usize) {
+                                        for v in fi {
+                                            h = crate::sim::game::mix(h, u64::from(*v));
+                                        }
+                                    }
+                                    let cs = if w.desync > 0 { u64::from(frame.unsigned_abs()) * 1_000_000 + h % 1_000_000 } else { 0 };
+                                    w.saves.insert(frame, cs);
+                                    cell.save(frame, Some(GState { frame, hash: 0 }), Some(u128::from(cs)));
                                     rq.push(format!("S{frame}"));
                                 }
-                                GgrsRequest::LoadGameState { frame, .. } => rq.push(format!("L{frame}")),
-                                GgrsRequest::AdvanceFrame { inputs } => rq.push(format!(
+                                GgrsRequest::LoadGameState { frame, .. } => {
+                                    w.ghist.truncate(frame.max(0) as usize);
+                                    rq.push(format!("L{frame}"));
+                                }
+                                GgrsRequest::AdvanceFrame { inputs } => {
+                                    w.ghist.push(inputs.iter().map(|(i, _)| i.0).collect());
+                                    rq.push(format!(
                                     "A({})",
                                     inputs.iter().map(|(i, s)| format!("{}{}", i.0, ["C", "P", "D"][status_code(*s) as usize])).collect::<Vec<_>>().join(",")
-                                )),
+                                    ));
+                                }
                             }
                         }
-                        format!("ok R=[{}] rs=[{}] ss=[{}] cur={} st={}", rq.join(","), rs, ss, w.sess.current_frame(), fmt_status(&w.sess.verif_connect_status()))
+                        let mut line = format!("ok R=[{}] rs=[{}] ss=[{}] cur={} st={}", rq.join(","), rs, ss, w.sess.current_frame(), fmt_status(&w.sess.verif_connect_status()));
+                        if let Some(pre) = pre {
+                            let post = w.sess.verif_desync();
+                            let fm = |m: &[(i32, u128)]| if m.is_empty() { "-".to_string() } else { m.iter().map(|(f, c)| format!("{f}:{c}")).collect::<Vec<_>>().join(",") };
+                            let cells = pre.cells.iter().map(|(f, c)| match c { Some(c) => format!("{f}:{c}"), None => format!("{f}:-") }).collect::<Vec<_>>().join(",");
+                            // every remote endpoint gets the same report: show the first puppet's
+                            let rep = w.reports_out.iter().filter(|r| r.0 == 0).map(|r| format!("{}:{}", r.1, r.2)).collect::<Vec<_>>();
+                            let mut evs: Vec<(u32, i32, u128, u128)> = Vec::new();
+                            for e in w.sess.events() {
+                                if let GgrsEvent::DesyncDetected { frame, local_checksum, remote_checksum, addr } = e {
+                                    evs.push((addr - 100, frame, local_checksum, remote_checksum));
+                                }
+                            }
+                            evs.sort_unstable();
+                            let ev = if evs.is_empty() { "-".to_string() } else { evs.iter().map(|e| format!("{}/{}/{}/{}", e.0, e.1, e.2, e.3)).collect::<Vec<_>>().join(";") };
+                            let pend = post.pending.iter().map(|(_, m)| fm(m)).collect::<Vec<_>>().join("|");
+                            line.push_str(&format!(" | ds pre=L:{};cells:{} rep={} ev={} sent={} hist={} pend={}", pre.last_confirmed, cells,
+                                if rep.is_empty() { "-".to_string() } else { rep.join(",") }, ev, post.last_sent, fm(&post.history), pend));
+                        }
+                        line
                     }
                 }
             }
